@@ -1056,7 +1056,7 @@ var c03Fixed = []struct{ first, second string }{
 }
 
 func init() {
-	fw.Register(&fw.Prop{
+	register(&fw.Prop{
 		ID: "C03",
 		Rule: "value streams: all sequences of <= 3 values over {1, \"a\", [], [1,2], {\"a\":1}, null, true, -0.5e1, [3]} x separators {none where the grammar allows, blank, newline} x trailing newline, run with four programs (per-value output; a counter across values; every root kept in an array that END prints; BEGIN rules only -- truncation and read faults); " +
 			"for each stream: every chunking when it is short, otherwise every schedule with <= k deviating Read answers (1 byte, up to each value boundary, boundary+1, (0,nil), last bytes together with EOF) plus the all-one-byte schedule; every truncation point; a sticky read error at every position (alone and together with the last bytes); " +
